@@ -3898,3 +3898,80 @@ func ruleBodyAlwaysCopied(id string) func(*Checker) {
 		c.check(n >= 1, id, name, "restores inside the loop", p.Pos(fn.Pos()), fmt.Sprintf("%d restore(s)", n), "no metadata restore inside the reading loop found")
 	}
 }
+
+// ruleSanitisersAgree — what one sub-path sanitiser refuses, the other refuses.
+func ruleSanitisersAgree(id string) func(*Checker) {
+	return func(c *Checker) {
+		c.rule(id, "Cross-check of the sub-path sanitisers (the (string, error) functions of the address package that call fs.ValidPath: one serves the parsers and constructors, one the resolution of relative addresses): the constant characters each of them refuses by a strings.Contains / ContainsAny / ContainsRune / IndexByte test whose hit edge returns an error are the same set. A character refused by the parsers' sanitiser only ('#', say) is still let through by the resolver, which then hands out an address whose printed form no parser accepts.", 1)
+		p := c.P
+		sets := map[*ssa.Function]map[string]bool{}
+		for fn := range p.subPathSanitisers() {
+			set := map[string]bool{}
+			for _, ci := range callsIn(fn) {
+				cl, ok := ci.(*ssa.Call)
+				if !ok || len(cl.Call.Args) != 2 {
+					continue
+				}
+				o := calleeObj(cl)
+				if o == nil || objPkgPath(o) != "strings" {
+					continue
+				}
+				switch o.Name() {
+				case "Contains", "ContainsAny", "ContainsRune", "IndexByte", "IndexRune", "Index", "IndexAny":
+				default:
+					continue
+				}
+				k := ""
+				if sv, isC := constString(cl.Call.Args[1]); isC {
+					k = sv
+				} else if iv, isC := constInt(cl.Call.Args[1]); isC {
+					k = string(rune(iv))
+				} else {
+					continue
+				}
+				// a refusing test: one of the edges of the If that consumes it leads only to error returns
+				refusing := false
+				for _, b := range fn.Blocks {
+					ifi, ok := b.Instrs[len(b.Instrs)-1].(*ssa.If)
+					if !ok || !p.backSlice(ifi.Cond, 0)[cl] {
+						continue
+					}
+					for i := 0; i < 2; i++ {
+						if rej, _ := returnsNonNilErrorFrom(b.Succs[i]); rej {
+							refusing = true
+						}
+					}
+				}
+				if refusing {
+					for _, r := range k {
+						set[string(r)] = true
+					}
+				}
+			}
+			sets[fn] = set
+		}
+		fns := sortedFuncs(func() map[*ssa.Function]bool {
+			m := map[*ssa.Function]bool{}
+			for f := range sets {
+				m[f] = true
+			}
+			return m
+		}())
+		c.check(len(fns) >= 2, id, "-", "two sanitisers compared", "-", fmt.Sprintf("%d sanitiser(s)", len(fns)), "fewer than two sub-path sanitisers found: nothing to compare")
+		for _, f := range fns {
+			var missing []string
+			for _, g := range fns {
+				if g == f {
+					continue
+				}
+				for k := range sets[g] {
+					if !sets[f][k] {
+						missing = append(missing, fmt.Sprintf("%q (refused by %s)", k, g.Name()))
+					}
+				}
+			}
+			sort.Strings(missing)
+			c.check(len(missing) == 0, id, p.FuncName(f), "refuses what its sibling refuses", p.Pos(f.Pos()), "the same characters are refused", "this sanitiser lets through "+strings.Join(missing, ", ")+": an address built on this route prints to a string the other route refuses")
+		}
+	}
+}
